@@ -15,14 +15,22 @@ RULE = ("seeded district-heating loops (1-8 consumers in all five specification 
 ASSUMPTIONS = ["heat capacities come from the public Fluid API"]
 CONFIG = {"quick": {"shards": 8, "timeout_s": 600, "cases": 320},
           "thorough": {"shards": 16, "timeout_s": 3000, "cases": 8000}}
-REQUIRED_COUNTERS = ["exchanger_duties", "exchanger_duties_negative", "exchanger_duties_reverse_flow", "consumer_duties_MF_DT_sequential",
+REQUIRED_COUNTERS = ["transient_steps_monitored", "exchanger_duties", "exchanger_duties_negative", "exchanger_duties_reverse_flow", "consumer_duties_MF_DT_sequential",
                      "consumer_duties_MF_TR_sequential", "consumer_duties_QE_MF_sequential",
                      "consumer_duties_QE_DT_bidirectional", "consumer_duties_QE_TR_bidirectional",
                      "consumer_setpoints_checked", "loop_closures"]
 
 
+def worker_init(ctx):
+    from pvmon.props.common import transient_init
+    transient_init()
+
+
 def gen_cases(tier, seed):
     _cases = [{"seed": seed, "i": i, "mode": "bidirectional" if i % 2 else "sequential", "numba": bool((i // 2) % 2), "source": ["cpp", "cpm", "grid", "cpp"][(i // 4) % 4]} for i in range(CONFIG[tier]["cases"])]
+    for c in _cases:
+        if c["i"] % 20 == 9:
+            c["transient"] = True
     if tier == "thorough":
         _cases = list(_cases) + suite_cases()
     return _cases
@@ -44,6 +52,24 @@ def run_case(case, ctx):
         obs = Obs()
         n = run_suite_case(case, "C11", obs)
         rec = {"nontrivial": n > 0, "sample": {"repo_suite_part": case["part"], "pipeflow_calls_observed": n}, "evaluations": max(n, 1)}
+        rec.update(obs.record())
+        return rec
+    if case.get("transient"):
+        # transient time series with profiles on every prescribed consumer quantity: the internal structures are kept between the
+        # steps, each step must still report its own set-points and consistent duties (loop closure needs a steady state: not judged)
+        from pvmon.props.common import run_transient_series
+        obs = Obs()
+        steps = []
+
+        def on_step(net):
+            o = dict(net["_options"])
+            mon_c11(net, obs, o, o.get("mode"), transient=True)
+            steps.append(1)
+            obs.count("transient_steps_monitored")
+        spec, o = run_transient_series(rng_for("C11t", case["seed"], case["i"]), obs, on_step, heating_only=True, modes=netgen.CONSUMER_MODES)
+        n = sum(v for k, v in obs.counters.items() if k.startswith(("exchanger_duties", "consumer_duties")))
+        rec = {"nontrivial": len(steps) >= 2 and n >= 2, "evaluations": max(len(steps), 1),
+               "sample": {"case": case, "net": netgen.spec_summary(spec), "options": o, "transient_steps_monitored": len(steps), "duties_judged": n}}
         rec.update(obs.record())
         return rec
     spec, opts = make(case)
